@@ -1,1 +1,232 @@
-/- C09 — property theorems (stub: not built yet). -/
+/-
+C09 — read → convert → write yields a valid target file with the source's timeline.
+
+FULL STATEMENT (the property; evaluated on every generated case by the harness through `c09.abs` / `c09.close`, NOT
+proved as one theorem):  for every source file `t` of format A inside the domain of A's reader property, every legal
+target B and key count B supports,
+    `CloseTo eps (res B) (gridExact a) shift a (abs_B (denote_B (write_B (convert_AB (read_A t)))))`   with `a = abs_A (denote_A t)`,
+`res osu = res qua = ms`, `res sm = beat (1/96) (1/192)`, `res bms = beat (1/192) (1/192)`.
+
+What is proved here, for all inputs:
+* `closeTo_sound`        the decidable `closeTo` the driver evaluates implies the declarative `CloseTo` (a perfect pairing of
+                         the hits, of the holds and of the two tempo timelines within the resolution);
+* key-count lookups      over the tables regenerated from the source: `sm_keys_roundtrip`, `sm_supported_exactly`,
+                         `sm_unsupported_refused`, `qua_mode_roundtrip`, `qua_supported_exactly`, `bms_layout_columns`;
+* converter ties         `sm_offset_rules`, `osu_circle_size_rules`, `qua_mode_rules`, `sm_chart_type_rules`: what every
+                         converter assigns to `#OFFSET`'s source, `circle_size`, `mode`, `chart_type` — the hypotheses the
+                         writers need (`#OFFSET` = first tempo point: D14; key count from the chart type: D15) are read off
+                         the generated converter table, so a source change breaks a proof obligation;
+* `offset_established_*` the writer hypothesis "`#OFFSET` = first tempo point" follows for the rule of `OsuToSM`
+                         unconditionally, for the rule `0.0` of `BMSToSM` / `O2JToSM` when the source's first tempo point is
+                         at 0 ms (`o2j_first_tempo_at_zero`: always so for an O2Jam level), and NOT for `QuaToSM`'s
+                         minimum over all rows (`quaToSM_offset_counterexample`: open finding N09a);
+* `content_carried`      (link 2, from C08) for each of the 17 generated converter entries a successful conversion returns
+                         one chart per source chart with the same hits / holds / tempo rows, columns shifted by the argument;
+* `into_qua_objects_partial`  (link 3 for Quaver, from C06 `qua_write_denotes`) the written document's denotation has the
+                         chart's hits and holds, every head and tail within the `ms` resolution.  `_partial`: the tempo
+                         timeline of the written document is `quantize`d too (C06), but that the *normalised* timelines pair
+                         off needs "no two tempo points within 1 ms" and is only evaluated on every case.
+The links for osu (C01 `line_roundtrip`, `qHit_close`, `qHold_close`), StepMania (C03 `row_exact`, `row_error_lt_one`) and
+BMS (C05 `slot_exact`, `slot_roundtrip`) targets and for the five readers (C01/C02/C04/C06/C07: reader = denotation) are
+the parts' theorems; they are stated over the parts' own model types and are not re-assembled here over `AChart`
+(the embedding of each format's chart into C08's frames is the missing glue).
+-/
+import Reamber.Lemmas.Pipeline
+import Reamber.Generated.SMTables
+import Reamber.Generated.PipelineTables
+import Reamber.Generated.Converters
+import Reamber.Props.C06
+import Reamber.Props.C08
+
+namespace Reamber.Pipeline
+
+open Reamber.Timing
+
+/-! ## the evaluated statement is sound for the declarative one -/
+
+/-- **`closeTo` is sound**: whenever the driver's decidable check succeeds, the hits, the holds and the two tempo
+timelines can be paired off within the resolution (for every tolerance, resolution, shift and pair of charts). -/
+theorem closeTo_sound (eps : Rat) (res : Res) (exact : Bool) (shift : Int) (src tgt : AChart)
+    (h : closeTo eps res exact shift src tgt = true) : CloseTo eps res exact shift src tgt := by
+  simp only [closeTo, Verdict.all, closeVerdict, Bool.and_eq_true] at h
+  obtain ⟨⟨hh, hl⟩, hb⟩ := h
+  exact ⟨matchUp_paired _ _ _ _ _ hh, matchUp_paired _ _ _ _ _ hl, matchUp_paired_id _ _ _ hb⟩
+
+/-- non-vacuity: a 4K chart written 0.4 ms late and one column to the right -/
+example : closeTo 0 .ms false 1 ⟨[(1000, 0), (1500, 3)], [(2000, 2, 500)], [(0, 120)]⟩
+    ⟨[(1500, 4), ((10004 : Rat) / 10, 1)], [(2000, 3, (5004 : Rat) / 10)], [(0, 120), (4000, 120)]⟩ = true := by decide +kernel
+
+/-! ## key-count lookups (generated tables) -/
+
+def smTypeOf (k : Nat) : List Char := (Generated.SM.typeOfKeys.lookup k).getD []
+def smKeysOf (t : List Char) : Option Nat := Generated.SM.keyTable.lookup t
+def smSupported : List Nat := [3, 4, 6, 7, 8]
+
+/-- `get_keys (get_type k) = k` for every key count StepMania charts can take -/
+theorem sm_keys_roundtrip : ∀ k ∈ smSupported, smKeysOf (smTypeOf k) = some k := by decide +kernel
+
+/-- `get_type` names a chart type exactly for 3, 4, 6, 7, 8 keys (0..18 probed) -/
+theorem sm_supported_exactly : ∀ p ∈ Generated.SM.typeOfKeys, (p.2 = [] ↔ p.1 ∉ smSupported) := by decide +kernel
+
+/-- an unsupported key count gives the type `""`, which has no key count: the writer refuses (`range(None)`) -/
+theorem sm_unsupported_refused : smKeysOf [] = none := by decide +kernel
+
+def quaModeOf (k : Nat) : String := (Generated.Pipeline.quaModeOfKeys.lookup k).getD ""
+def quaKeysOf (m : String) : Option Int := Generated.Pipeline.quaKeysOfMode.lookup m
+def quaSupported : List Nat := [4, 7, 8]
+
+/-- `QuaMapMode.get_keys (get_mode k) = k` for 4, 7, 8 keys -/
+theorem qua_mode_roundtrip : ∀ k ∈ quaSupported, quaKeysOf (quaModeOf k) = some (k : Int) := by decide +kernel
+
+theorem qua_supported_exactly : ∀ p ∈ Generated.Pipeline.quaModeOfKeys, (p.2 = "" ↔ p.1 ∉ quaSupported) := by decide +kernel
+
+/-- every mode constant has a key count that maps back to it -/
+theorem qua_modes_roundtrip : ∀ m ∈ Generated.Pipeline.quaModes,
+    ∃ k ∈ quaSupported, quaKeysOf m = some (k : Int) ∧ quaModeOf k = m := by decide +kernel
+
+/-- every BMS layout maps its lane channels onto the columns `0 … n-1` -/
+theorem bms_layout_columns : ∀ p ∈ Generated.Pipeline.bmsLayoutColumns, p.2 = List.range p.2.length := by decide +kernel
+
+/-! ## what the converters assign (generated converter table) -/
+
+open Reamber.Convert in
+/-- the last assignment to `level.attr` in every converter that makes one -/
+def metaExprs (level attr : String) : List (String × Convert.MetaExpr) :=
+  Generated.converters.filterMap fun c =>
+    (c.metas.reverse.find? fun m => m.level == level && m.attr == attr).map fun m => (c.name, m.expr)
+
+/-- where the StepMania offset (the source of `#OFFSET`) comes from -/
+inductive OffsetRule where
+  | firstTempo | zero | minAll
+deriving DecidableEq, Repr
+
+def offsetRuleOf : Convert.MetaExpr → Option OffsetRule
+  | .opaque "sm.bpms.first_offset()" => some .firstTempo
+  | .opaque "0.0" => some .zero
+  | .opaque "qua.stack().offset.min()" => some .minAll
+  | _ => none
+
+/-- **every converter into StepMania sets the offset, and by which rule** (D14: `OsuToSM` had `0.0`) -/
+theorem sm_offset_rules :
+    (metaExprs "set" "offset").map (fun p => (p.1, offsetRuleOf p.2)) =
+      [("BMSToSM.convert", some .zero), ("O2JToSM.convert", some .zero), ("O2JToSM.convert_merge", some .zero),
+       ("OsuToSM.convert", some .firstTempo), ("QuaToSM.convert", some .minAll)] ∧
+    (Generated.converters.filter (·.tgtGame == "sm")).map (·.name) = (metaExprs "set" "offset").map (·.1) := by
+  decide +kernel
+
+/-- **every converter into osu sets `circle_size`** (D15: `SMToOsu` did not), and from what -/
+theorem osu_circle_size_rules :
+    metaExprs "map" "circle_size" =
+      [("BMSToOsu.convert", .opaque "bms.stack().column.max() + 1"), ("O2JToOsu.convert", .opaque "7"),
+       ("QuaToOsu.convert", .opaque "QuaMapMode.get_keys(qua.mode)"),
+       ("SMToOsu.convert", .opaque "SMMapChartTypes.get_keys(sm.chart_type)")] ∧
+    (Generated.converters.filter (·.tgtGame == "osu")).map (·.name) = (metaExprs "map" "circle_size").map (·.1) := by
+  decide +kernel
+
+theorem qua_mode_rules :
+    metaExprs "map" "mode" =
+      [("BMSToQua.convert", .opaque "QuaMapMode.get_mode(int(bms.stack().column.max() + 1))"),
+       ("O2JToQua.convert", .opaque "QuaMapMode.KEYS_7"),
+       ("OsuToQua.convert", .opaque "QuaMapMode.get_mode(int(osu.circle_size))"),
+       ("SMToQua.convert", .opaque "QuaMapMode.get_mode(int(SMMapChartTypes.get_keys(sm.chart_type)))")] ∧
+    (Generated.converters.filter (·.tgtGame == "qua")).map (·.name) = (metaExprs "map" "mode").map (·.1) := by
+  decide +kernel
+
+/-- every per-chart converter into StepMania infers the chart type from the largest column (`convert_merge` leaves the
+default `dance-single`) -/
+theorem sm_chart_type_rules :
+    metaExprs "map" "chart_type" =
+      [("BMSToSM.convert", .opaque "SMMapChartTypes.get_type(bms.stack().column.max() + 1)"),
+       ("O2JToSM.convert", .opaque "SMMapChartTypes.get_type(o2j.stack().column.max() + 1)"),
+       ("OsuToSM.convert", .opaque "SMMapChartTypes.get_type(osu.stack().column.max() + 1)"),
+       ("QuaToSM.convert", .opaque "SMMapChartTypes.get_type(qua.stack().column.max() + 1)")] := by
+  decide +kernel
+
+/-! ## the writer's hypothesis "`#OFFSET` = first tempo point" -/
+
+/-- the offset a rule gives for a chart (`svs`: times of the scroll velocities, which Quaver's `stack()` also sees) -/
+def offsetBy (r : OffsetRule) (a : AChart) (svs : List Rat) : Option Rat :=
+  match r with
+  | .firstTempo => firstTempo a
+  | .zero => some 0
+  | .minAll => minTime a svs
+
+/-- the hypothesis of the StepMania writer link (C03's domain): the set's offset is the first tempo point -/
+def OffsetOk (r : OffsetRule) (a : AChart) (svs : List Rat) : Prop := offsetBy r a svs = firstTempo a
+
+instance (r : OffsetRule) (a : AChart) (svs : List Rat) : Decidable (OffsetOk r a svs) := by
+  unfold OffsetOk; infer_instance
+
+/-- `OsuToSM` (rule `first_offset()`, D14 repaired): established for every chart -/
+theorem offset_established_first (a : AChart) (svs : List Rat) : OffsetOk .firstTempo a svs := rfl
+
+/-- `BMSToSM`, `O2JToSM` (rule `0.0`): established when the source's first tempo point is at 0 ms -/
+theorem offset_established_zero (a : AChart) (svs : List Rat) (h : firstTempo a = some 0) : OffsetOk .zero a svs := by
+  unfold OffsetOk offsetBy; rw [h]
+
+example : OffsetOk .zero ⟨[(500, 1)], [], [(0, 120), (2000, 60)]⟩ [] := by decide +kernel
+
+/-- `QuaToSM` (rule `stack().offset.min()`): established only when nothing precedes the first tempo point … -/
+theorem offset_established_min (a : AChart) (svs : List Rat) (h : minTime a svs = firstTempo a) : OffsetOk .minAll a svs := h
+
+example : OffsetOk .minAll ⟨[(1000, 0)], [], [(1000, 120)]⟩ [1000, 1500] := by decide +kernel
+
+/-- … and fails as soon as a scroll velocity (or a note) does: **open finding N09a** — a Quaver chart with a scroll
+velocity at 0 ms and its tempo point and first note at 1000 ms gets `#OFFSET` 0 while the writer counts beats from the
+tempo point: everything is written 1000 ms early. -/
+theorem quaToSM_offset_counterexample : ¬ OffsetOk .minAll ⟨[(1000, 0), (1500, 3)], [], [(1000, 120)]⟩ [0] := by
+  decide +kernel
+
+/-- an O2Jam level's tempo list starts with the header tempo at 0 ms: the rule `0.0` of `O2JToSM` names its first point -/
+theorem o2j_first_tempo_at_zero (init : Rat) (pkgs : List O2J.RawPkg) (l : O2J.LevelOut)
+    (h : O2J.Spec.specLevel init pkgs = .ok l) : (ofO2J l).bpms.head? = some (0, init) := by
+  unfold O2J.Spec.specLevel at h
+  simp only [bind, Except.bind] at h
+  split at h
+  · cases h
+  · simp only [Except.ok.injEq] at h
+    subst h
+    rfl
+
+/-! ## link 2: the converters carry the content (C08, re-exported for all 17 entries) -/
+
+/-- for every generated converter entry, every well-formed source and shift: one chart per source chart, each holding
+the source chart's hits `(offset, column)`, holds `(offset, column, length)` and tempo points `(offset, bpm)` as
+multisets, the column shifted by the shift argument only — exactly the rows `AChart` abstracts. -/
+theorem content_carried : ∀ c ∈ Generated.converters, ∀ (src : Convert.Src) (k : Int) (out : Convert.Out),
+    (∀ m ∈ src.maps, Convert.srcMapOk m = true) → Convert.convert Convert.tables c src k = .ok out →
+    (Convert.specAll Convert.tables c.srcGame c.tgtGame c.tgtMapClass src (Convert.effShift c k) out).content = true ∧
+    (Convert.specAll Convert.tables c.srcGame c.tgtGame c.tgtMapClass src (Convert.effShift c k) out).onePer = true :=
+  Convert.converters_content_and_count
+
+/-! ## link 3 for Quaver: the written document denotes the chart's objects within 1 ms -/
+
+/-- the object part of `CloseTo` -/
+def ObjectsClose (eps : Rat) (res : Res) (exact : Bool) (shift : Int) (src tgt : AChart) : Prop :=
+  Paired (fun a b => closeHit eps res exact shift src a b = true) src.hits tgt.hits ∧
+  Paired (fun a b => closeHold eps res exact shift src a b = true) src.holds tgt.holds
+
+/-- **Into Quaver** (`_partial`: objects; the tempo timeline is only evaluated): for every chart with well-formed
+metadata and list-valued key sounds (what a converter produces since D08 is repaired) that the writer accepts, the
+written document has a denotation, and that denotation holds the chart's hits and holds — same lanes, every head and
+tail less than 1 ms away, no float slack. -/
+theorem into_qua_objects_partial (c : Qua.Chart) (d : Qua.Doc) (hm : Qua.MetaOk c.info)
+    (hk : Qua.Spec.ksLists c = true) (hw : Qua.write c = .ok d) :
+    ∃ c', Qua.Spec.denote d = .ok c' ∧ ObjectsClose 0 .ms false 0 (ofQua c) (ofQua c') := by
+  obtain ⟨hden, _⟩ := Qua.qua_write_denotes c d hm hk hw
+  refine ⟨Qua.Spec.quantize c, hden, ?_, ?_⟩
+  · refine ⟨_, _, List.Perm.refl _, List.Perm.refl _, ?_⟩
+    show Zipped _ (c.hits.map fun h => (h.offset, h.column)) ((c.hits.map Qua.Spec.qHit).map fun h => (h.offset, h.column))
+    apply zipped_map
+    intro h
+    simp [closeHit, Qua.Spec.qHit, closeTime_ms_trunc]
+  · refine ⟨_, _, List.Perm.refl _, List.Perm.refl _, ?_⟩
+    show Zipped _ (c.holds.map fun h => (h.offset, h.column, h.length))
+      ((c.holds.map Qua.Spec.qHold).map fun h => (h.offset, h.column, h.length))
+    apply zipped_map
+    intro h
+    have ht : (Qua.truncI h.offset : Rat) + ((Qua.truncI (h.offset + h.length) : Rat) - (Qua.truncI h.offset : Rat)) =
+        (Qua.truncI (h.offset + h.length) : Rat) := by linarith
+    simp [closeHold, Qua.Spec.qHold, closeTime_ms_trunc, ht]
+
+end Reamber.Pipeline
